@@ -28,7 +28,13 @@ import (
 type c05HTTPCase struct {
 	S []c05Fld `json:"s"` // Tag = path | form | header | json
 	D c05JV    `json:"d"` // one member per field (keyed by the field's key): its value
+	// Big > 0: the last field is an optional json string field "pad"; the interpreter fills it
+	// with as many bytes as make the request body exactly Big bytes long (the megabytes are
+	// not stored in the case). All json fields of such a case are optional or defaulted.
+	Big int `json:"big,omitempty"`
 }
+
+const c05MaxBody = 8 << 20 // httpx reads at most this many bytes of a JSON body
 
 // ---- building Go values from plain document nodes (harness-owned, no mapping code) ----
 
@@ -301,6 +307,23 @@ func c05GenHTTPCase(rt *rapid.T) c05HTTPCase {
 	return c
 }
 
+// c05GenHTTPCaseBig wraps the generator: about one case in 700 is a large-document case.
+func c05GenHTTPCaseMaybeBig(rt *rapid.T) c05HTTPCase {
+	// (rapid's integer generators favour small values and bounds: hash the draw to get a flat 1/700)
+	if x := rapid.Uint64().Draw(rt, "bigbody"); (x*0x9E3779B97F4A7C15>>33)%700 != 3 {
+		return c05GenHTTPCase(rt)
+	}
+	c := c05GenHTTPCase(rt)
+	for i := range c.S {
+		if c.S[i].Tag == "json" && c.S[i].Def == nil {
+			c.S[i].Opt = true // nothing required in the body: "no body" would be accepted silently
+		}
+	}
+	c.S = append(c.S, c05Fld{W: []string{"pad"}, T: c05Typ{K: "string"}, Tag: "json", KS: "camel", Opt: true})
+	c.Big = c05MaxBody + c05Pick(rt, "bigdelta", []int{-1024, -5, -1, 0, 1, 3, 1024, 1024, 4 << 20})
+	return c
+}
+
 // ---- the server: one process-wide httptest server, handler swapped per case ----
 
 var (
@@ -360,13 +383,16 @@ func c05InterpHTTP(c c05HTTPCase) (v kit.Verdict) {
 		called   int
 		parseErr error
 		parsePan any
+		bodyLen  int64
 	)
 	rtr := router.NewRouter()
 	if err := rtr.Handle(http.MethodPost, pattern, http.HandlerFunc(func(w http.ResponseWriter, r *http.Request) {
-		out := c05Call(func() error { return httpx.Parse(r, target.Interface()) })
+		got := reflect.New(target.Type().Elem())
+		out := c05Call(func() error { return httpx.Parse(r, got.Interface()) })
 		mu.Lock()
 		called++
-		parseErr, parsePan = out.Err, out.Panic
+		parseErr, parsePan, bodyLen = out.Err, out.Panic, r.ContentLength
+		target = got
 		mu.Unlock()
 		w.WriteHeader(http.StatusNoContent)
 	})); err != nil {
@@ -377,20 +403,59 @@ func c05InterpHTTP(c c05HTTPCase) (v kit.Verdict) {
 	c05SrvH = rtr
 	c05SrvMu.Unlock()
 
-	desc := func() string {
-		return fmt.Sprintf("type %v sent %s route %s", target.Type().Elem(), c05Sprint(sent.Elem()), pattern)
-	}
+	descText := fmt.Sprintf("type %v sent %s route %s", target.Type().Elem(), c05Sprint(sent.Elem()), pattern)
+	desc := func() string { return descText }
 	var resp *http.Response
-	out := c05Call(func() error {
-		var err error
-		resp, err = httpc.Do(context.Background(), http.MethodPost, srv.URL+pattern, sent.Interface())
-		return err
-	})
-	if resp != nil {
-		_, _ = io.Copy(io.Discard, resp.Body)
-		_ = resp.Body.Close()
+	send := func() c05Outcome {
+		out := c05Call(func() error {
+			var err error
+			resp, err = httpc.Do(context.Background(), http.MethodPost, srv.URL+pattern, sent.Interface())
+			return err
+		})
+		if resp != nil {
+			_, _ = io.Copy(io.Discard, resp.Body)
+			_ = resp.Body.Close()
+		}
+		return out
+	}
+	out := send()
+	if c.Big > 0 && out.Panic == nil && out.Err == nil && called == 1 && parsePan == nil && parseErr == nil {
+		// large-document class: second request with the pad field sized so that the body is exactly c.Big bytes
+		padField := sent.Elem().Field(len(c.S) - 1)
+		n := c.Big - int(bodyLen)
+		if len(c.S) == 0 || c.S[len(c.S)-1].W[0] != "pad" || padField.Kind() != reflect.String || n <= 0 {
+			return kit.Verdict{Excluded: true, Classes: []string{"big:not-constructible"}}
+		}
+		classes[fmt.Sprintf("big:%+d", c.Big-c05MaxBody)] = true
+		padField.SetString(strings.Repeat("a", n))
+		called = 0
+		out = send()
+		descText += fmt.Sprintf(" | second request: pad field of %d bytes, Content-Length %d (limit %d)", n, bodyLen, c05MaxBody)
+		bigOK := false
+		switch {
+		case out.Panic != nil || parsePan != nil:
+		case out.Err != nil || parseErr != nil:
+			classes["big:rejected-with-error"] = true
+			bigOK = true // "either fails with an error ..."
+		case called == 1 && int(bodyLen) == c.Big && reflect.DeepEqual(sent.Elem().Interface(), target.Elem().Interface()):
+			classes["big:accepted-exact"] = true
+			bigOK = true // "... or every field equals the document's value"
+		}
+		// keep messages small
+		padField.SetString("")
+		if target.Elem().Field(len(c.S)-1).Kind() == reflect.String {
+			target.Elem().Field(len(c.S) - 1).SetString(fmt.Sprintf("<%d bytes>", target.Elem().Field(len(c.S)-1).Len()))
+		}
+		if bigOK {
+			out, parseErr, parsePan, called = c05Outcome{}, nil, nil, 1
+			target = sent // judged above
+		} else if out.Panic == nil && parsePan == nil {
+			v.Fail = fmt.Sprintf("P5 a %d-byte JSON body was neither rejected with an error nor parsed into the struct that was sent: handler calls %d, Content-Length %d, got %s | %s",
+				c.Big, called, bodyLen, c05Sprint(target.Elem()), desc())
+		}
 	}
 	switch {
+	case v.Fail != "":
 	case out.Panic != nil:
 		v.Fail = fmt.Sprintf("P0 httpc.Do panicked: %v | %s", out.Panic, desc())
 	case out.Err != nil:
@@ -421,7 +486,7 @@ func c05InterpHTTP(c c05HTTPCase) (v kit.Verdict) {
 }
 
 func TestVerif_C05_http(t *testing.T) {
-	kit.Run(t, "C05", "http", kit.Opts{Quick: 8000, Thorough: 160000}, c05GenHTTPCase, c05InterpHTTP)
+	kit.Run(t, "C05", "http", kit.Opts{Quick: 8000, Thorough: 160000}, c05GenHTTPCaseMaybeBig, c05InterpHTTP)
 }
 
 var _ = rapid.Bool
